@@ -393,6 +393,20 @@ func crafted() []string {
 	if ts, err := typesystem.NewAndValidate(context.Background(), m11.Proto(fgarun.ModelID)); err == nil {
 		out = append(out, caseLine(m11, ts, nil, []fga.Tuple{lax}, fga.Req{Obj: "doc:a", Rel: "viewer", User: "user:x"}))
 	}
+	// recursive strategy: Recursive.buildTupleMapperForID still applies its visited filter before the condition filter
+	// (the fix 1d97cee covers Resolver.buildIterator only): group:d is claimed by the conditioned tuple of group:c
+	// (condition false) and skipped when group:e reaches it unconditionally — depending on the order in which the
+	// breadth-first search visits group:c and group:e
+	m12 := &fga.Model{Types: []*fga.TypeDef{{Name: "user"},
+		{Name: "group", Rels: []*fga.RelDef{{Name: "rmember", Rewrite: this(),
+			Restrs: []fga.Restr{u, {Typ: "group", Rel: "rmember", Cond: "c1"}, {Typ: "group", Rel: "rmember"}}}}}},
+		Conds: c1}
+	mk(m12, []fga.Tuple{
+		{Obj: "group:a", Rel: "rmember", User: "group:c#rmember"}, {Obj: "group:a", Rel: "rmember", User: "group:e#rmember"},
+		{Obj: "group:c", Rel: "rmember", User: "group:d#rmember", Cond: "c1", Ctx: []fga.KV{{K: "x", V: 20}}},
+		{Obj: "group:e", Rel: "rmember", User: "group:d#rmember"},
+		{Obj: "group:d", Rel: "rmember", User: "group:b#rmember"}, {Obj: "group:b", Rel: "rmember", User: "user:x"},
+	}, fga.Req{Obj: "group:a", Rel: "rmember", User: "user:x"})
 	// AND inside a tuple cycle: the weighted graph cannot be built -> fallback to the default engine
 	m5 := &fga.Model{Types: []*fga.TypeDef{{Name: "user"},
 		{Name: "group", Rels: []*fga.RelDef{
